@@ -33,6 +33,16 @@ EXPECTED_MISS = {
                 '(C01/C02/C15 decline with exit 2)',
     'C09-r6-2': 'breaks reload behaviour without a main file (C10.RESET, '
                 'C12 and C20 fire), not the layering order C09 states',
+    'C03-r9-2': 'deny-side only (a blank constructor argument no longer '
+                'falls back on the option): the statement bounds when an '
+                'unknown name may be allowed, and `is None` is one of the '
+                'accepted spellings of "argument given"',
+    'C12-r9-2': 'needs a read fault (EACCES while re-reading the file), '
+                'which the operation alphabets of C10 / C12 do not have; a '
+                'rule that forbids remembering the time of a failed read '
+                'fires on the unchanged library too (a non-EACCES OSError '
+                'there) and was withdrawn as demanding more than the '
+                'property states',
     'C20-r8-1': 'pre-fills the not yet published store so that a concurrent '
                 'caller no longer finds it empty and no longer reloads for '
                 'itself: the write discipline is unchanged, what changes is '
@@ -52,6 +62,9 @@ EXPECTED_INCONCLUSIVE = {
                 'recursive generator (same)',
     'C15-r7-2': 'reducer helper with a loop: the effect language has no '
                 'loops',
+    'C02-r9-2': 'reducer patterns given as tuples of alternatives and '
+                'matched by `in`: the reducer table is not read (C01, C02, '
+                'C15 decline)',
     'C08-r6-2': 'the gate hands its error back instead of raising it '
                 '(C07.SURFACE / C14.SURFACE report the raise outside the '
                 'gate; C08 declines)',
